@@ -1,7 +1,9 @@
 """stubtest compares `str.__new__` (from the stub's MRO) with Enum's run-time `__new__` for `class M(str, Enum)`.
 
 Exit status 1 = defect present, 0 = absent, 2 = inconclusive (preconditions of the input failed).
-Mechanism keys: stubtest:semantic:enum.__new__:is inconsistent, runtime does not have parameter "_""""
+Mechanism keys:
+  stubtest:semantic:enum.__new__:is inconsistent, runtime does not have parameter '_'
+"""
 import os
 import sys
 
